@@ -17,6 +17,6 @@ def pmap(fn, items, jobs=None, min_items=24):
         return [fn(x) for x in items]
     _G["fn"], _G["items"] = fn, items
     ctx = multiprocessing.get_context("fork")
-    chunk = max(1, len(items) // (jobs * 4))
+    chunk = max(1, len(items) // (jobs * 24))
     with ctx.Pool(jobs) as pool:
         return pool.map(_worker, range(len(items)), chunksize=chunk)
